@@ -187,8 +187,16 @@ Section Loop.
                end) /\
     (forall x, has_gate cur x = true -> has_gate c x = false ->
        exists l, has_gate c l = true /\ is_helper_label l x /\
+         ~ In l (map fst rest) /\ In x (ops_of cur l) /\
          forall b b0, dget (blocks c) b = Some b0 -> In l (bgates b0) ->
                       exists bc, dget (blocks cur) b = Some bc /\ In x (bgates bc)).
+
+  Lemma helper_rule_In ty ops ins t nl on ops' : helper_rule ty ops ins t nl on ops' -> In nl ops'.
+  Proof.
+    intros [(o0 & o1 & rest & _ & Hc)|(rest & _ & -> & _)]; [|simpl; auto].
+    repeat match goal with H : _ \/ _ |- _ => destruct H end;
+      repeat match goal with H : _ /\ _ |- _ => destruct H end; subst; simpl; auto.
+  Qed.
 
   Lemma anb_dget cur l nl b :
     dget (blocks (add_new_gate_to_blocks cur l nl)) b =
@@ -205,13 +213,17 @@ Section Loop.
       ~ In l (map fst rest) ->
       Qblk ((l, g) :: rest) cur -> convert_gate cur l g f = Ok c2 -> Qblk rest c2.
   Proof.
-    intros l g rest cur f c2 _ _ Hg _ _ _ (Hrest & Hmono & Hkeys & Hblk & Hhelp) Hcv.
+    intros l g rest cur f c2 _ _ Hg _ _ Hnotin (Hrest & Hmono & Hkeys & Hblk & Hhelp) Hcv.
     apply convert_gate_shape in Hcv.
+    assert (Hweak : forall l0, ~ In l0 (map fst ((l, g) :: rest)) -> l0 <> l /\ ~ In l0 (map fst rest)).
+    { simpl; intros l0 Hn; split; [intros ->; apply Hn; auto|intros Hin; apply Hn; auto]. }
     assert (Hrest' : forall l' g', In (l', g') rest -> has_gate c l' = true).
     { intros l' g' Hin; eapply Hrest; right; eassumption. }
     assert (Hlc : has_gate c l = true) by (eapply Hrest; left; reflexivity).
     destruct Hcv as [Hb ->|t nl on ops' Hlab Hnl Hon Hgates Hi Ho Hbl Hrule|t kept Hgates Hi Ho Hbl Hrule].
-    - repeat split; assumption.
+    - split; [exact Hrest'|]. split; [exact Hmono|]. split; [exact Hkeys|]. split; [exact Hblk|].
+      intros x Hx Hxc. destruct (Hhelp x Hx Hxc) as (l0 & Hl0 & Hlab0 & Hn0 & Hop0 & Hb0).
+      exists l0. destruct (Hweak l0 Hn0). auto 6.
     - assert (Hhas : forall x, has_gate c2 x = leqb x l || leqb x nl || has_gate cur x).
       { intros x; unfold has_gate; rewrite Hgates, !dmem_dset. rewrite orb_assoc; reflexivity. }
       assert (Hmono2 : forall x, has_gate cur x = true -> has_gate c2 x = true).
@@ -232,12 +244,18 @@ Section Loop.
           intros x Hx. destruct (Hex x Hx); split; [assumption|apply Hmono2; assumption].
       + intros x Hx Hxc. rewrite Hhas in Hx.
         destruct (has_gate cur x) eqn:Ecur.
-        * destruct (Hhelp x Ecur Hxc) as (l0 & Hl0 & Hlab0 & Hb0). exists l0. split; [assumption|].
-          split; [assumption|]. intros b b0 Hgb Hin. destruct (Hb0 b b0 Hgb Hin) as (bc & Hbc & Hxin).
+        * destruct (Hhelp x Ecur Hxc) as (l0 & Hl0 & Hlab0 & Hn0 & Hop0 & Hb0). exists l0.
+          destruct (Hweak l0 Hn0) as [Hl0l Hn0'].
+          split; [assumption|]. split; [assumption|]. split; [assumption|]. split.
+          { unfold ops_of; rewrite Hgates, !dget_dset. apply leqb_neq in Hl0l; rewrite Hl0l.
+            destruct (leqb_spec l0 nl) as [->|_]; [congruence|exact Hop0]. }
+          intros b b0 Hgb Hin. destruct (Hb0 b b0 Hgb Hin) as (bc & Hbc & Hxin).
           rewrite Hbl, anb_dget, Hbc; simpl. eexists; split; [reflexivity|].
           destruct (memb l (bgates bc)); simpl; [apply in_or_app; left|]; exact Hxin.
         * rewrite orb_false_r in Hx. destruct (leqb_spec x l) as [->|_]; [congruence|]. simpl in Hx.
           apply leqb_eq in Hx; subst x. exists l. split; [assumption|]. split; [assumption|].
+          split; [exact Hnotin|]. split.
+          { unfold ops_of; rewrite Hgates, dget_dset, leqb_refl; simpl. eapply helper_rule_In; eassumption. }
           intros b b0 Hgb Hin. specialize (Hblk b). rewrite Hgb in Hblk. destruct Hblk as (extra & Hbc & _).
           rewrite Hbl, anb_dget, Hbc; simpl. eexists; split; [reflexivity|].
           assert (memb l (bgates b0 ++ extra) = true) as ->
@@ -251,8 +269,11 @@ Section Loop.
       + intros b. specialize (Hblk b). rewrite Hbl. destruct (dget (blocks c) b); [|exact Hblk].
         destruct Hblk as (extra & E & Hex). exists extra; split; [exact E|].
         intros x Hx; rewrite Hhas; apply Hex, Hx.
-      + intros x Hx Hxc. rewrite Hhas in Hx. destruct (Hhelp x Hx Hxc) as (l0 & Hl0 & Hlab0 & Hb0).
-        exists l0. split; [assumption|]. split; [assumption|]. rewrite Hbl; exact Hb0.
+      + intros x Hx Hxc. rewrite Hhas in Hx. destruct (Hhelp x Hx Hxc) as (l0 & Hl0 & Hlab0 & Hn0 & Hop0 & Hb0).
+        destruct (Hweak l0 Hn0) as [Hl0l Hn0'].
+        exists l0. split; [assumption|]. split; [assumption|]. split; [assumption|]. split.
+        { unfold ops_of; rewrite Hgates, dget_dset. apply leqb_neq in Hl0l; rewrite Hl0l. exact Hop0. }
+        rewrite Hbl; exact Hb0.
   Qed.
 
   Lemma Qblk_init : Qblk (gates c) c.
@@ -329,4 +350,52 @@ Section IntoBench.
     apply (into_bench_ind (Qblk c) (Qblk_step c) c fresh c' W N (arity_ok_binary_le c A)); [|exact H].
     apply Qblk_init.
   Qed.
+
+  (* the same, spelled out: old gates survive; blocks keep their names, inputs and outputs and
+     only gain helper gates; every new gate x is the helper (operand, helper label) of a rewritten
+     gate l of c and lies in every block that had l among its gates *)
+  Theorem into_bench_blocks_spec :
+    (forall x, has_gate c x = true -> has_gate c' x = true) /\
+    dkeys (blocks c') = dkeys (blocks c) /\
+    (forall b, match dget (blocks c) b with
+               | None => dget (blocks c') b = None
+               | Some b0 => exists extra,
+                   dget (blocks c') b = Some (mkBlock (binputs b0) (bgates b0 ++ extra) (boutputs b0)) /\
+                   forall x, In x extra -> has_gate c x = false /\ has_gate c' x = true
+               end) /\
+    (forall x, has_gate c' x = true -> has_gate c x = false ->
+       exists l, has_gate c l = true /\ is_helper_label l x /\ In x (ops_of c' l) /\
+         forall b b0, dget (blocks c) b = Some b0 -> In l (bgates b0) ->
+                      exists bc, dget (blocks c') b = Some bc /\ In x (bgates bc)).
+  Proof.
+    destruct into_bench_blocks as (_ & H1 & H2 & H3 & H4). repeat split; try assumption.
+    intros x Hx Hxc. destruct (H4 x Hx Hxc) as (l & Ha & Hb & _ & Hc & Hd). exists l; auto.
+  Qed.
 End IntoBench.
+
+(* ------------------------------------------------------------------ *)
+(* The restriction to total assignments is necessary: with a partial assignment the rewritten
+   comparison gate can be MORE defined than the original one (GT(U, True) = U, but
+   AND(U, NOT True) = False). *)
+Definition cex_partial : circuit :=
+  mkCircuit ["a"; "b"] ["g"]
+    [("a", mkGate INPUT []); ("b", mkGate INPUT []); ("g", mkGate GT ["a"; "b"])]
+    [("a", ["g"]); ("b", ["g"])] [].
+
+Example into_bench_partial_assignment_differs :
+  wfb cex_partial = true /\ arity_ok cex_partial /\
+  exists c', into_bench cex_partial ["X"] = Ok c' /\
+             Eval cex_partial [("b", T)] "g" U /\ Eval c' [("b", T)] "g" F.
+Proof.
+  split; [vm_compute; reflexivity|]. split; [apply arity_okb_sound; vm_compute; reflexivity|].
+  eexists; split; [vm_compute; reflexivity|]. split.
+  - eapply (EvalGate _ _ "g" (mkGate GT ["a"; "b"]) [U; T]); [reflexivity|discriminate| |reflexivity].
+    constructor; [apply (Eval_input_val _ _ "a" (mkGate INPUT [])); reflexivity|].
+    constructor; [apply (Eval_input_val _ _ "b" (mkGate INPUT [])); reflexivity|constructor].
+  - eapply (EvalGate _ _ "g" (mkGate AND ["a"; "new_gate_GT_for_gX"]) [U; F]);
+      [reflexivity|discriminate| |reflexivity].
+    constructor; [apply (Eval_input_val _ _ "a" (mkGate INPUT [])); reflexivity|].
+    constructor; [|constructor].
+    eapply (EvalGate _ _ "new_gate_GT_for_gX" (mkGate NOT ["b"]) [T]); [reflexivity|discriminate| |reflexivity].
+    constructor; [apply (Eval_input_val _ _ "b" (mkGate INPUT [])); reflexivity|constructor].
+Qed.
